@@ -333,7 +333,10 @@ pub fn unpaired_ref<F: Fl>(ra: &MeanRef, rb: &MeanRef, conf: &Conf) -> Option<Un
     let dc_q = if dof < POPULATION_LIMIT { cdf_tol_t_at(dmax, cr.c) / dens } else { CDF_TOL_Z / dens } + 4e-16 * cr.c.abs();
     let diff = ra.mean - rb.mean;
     let u = F::U;
-    let dse = (dta + dtb) / (2.0 * se) * 1.01 + 6.0 * u * se;
+    // the two quotients s^2/n are formed in the sample's float type: when they are below its normal range each is
+    // rounded to a multiple of the smallest subnormal eta, an absolute error on se^2 that no relative term covers
+    let eta = if F::IS32 { crate::fl::pow2(-149) } else { crate::fl::pow2(-1074) };
+    let dse = (dta + dtb + 2.0 * eta) / (2.0 * se) * 1.01 + 6.0 * u * se;
     let cabs = cr.c.abs();
     let tol = 2.0 * (ra.tol_mean::<F>(0) + rb.tol_mean::<F>(0) + 2.0 * u * (diff.abs() + cabs * se) + cabs * dse + 8.0 * f64::EPSILON * (ra.mean.abs() + rb.mean.abs() + cabs * se)) + se * (dc_q + dc_dof) + f64::MIN_POSITIVE;
     if tol.is_nan() || dof.is_nan() {
